@@ -212,6 +212,8 @@ pub fn generate(stream: &str, tier: &str, seed: u64) -> Vec<String> {
     let (ncases, epochs, users) = if thorough { (10, 34, 8) } else { (4, 9, 6) };
     match stream {
         "l1.trie" => crate::gen_trie::gen_trie(&mut rng, thorough, &mut out),
+        "l1.store" => gen_store(&mut rng, thorough, &mut out),
+        "l1.fault" => gen_fault(&mut rng, thorough, &mut out),
         "l1.dir.c01" => {
             for i in 0..ncases {
                 let o = DirOpts { epochs: epochs + (i % 3) * 4, users, lookups: false, histories: false, audits: false, dumps: true, tombstones: false, proofs: false, hot_user: i % 2 == 0 };
@@ -248,4 +250,149 @@ pub fn generate(stream: &str, tier: &str, seed: u64) -> Vec<String> {
         }
     }
     out
+}
+
+/// `l1.store`: random operation sequences through one storage manager (C15 / C16).
+pub fn gen_store(rng: &mut Rng, thorough: bool, out: &mut Vec<String>) {
+    let ncases = if thorough { 400 } else { 60 };
+    for case in 0..ncases {
+        let mode = match case % 4 { 0 => "nocache", 3 => "tiny", _ => "cache" };
+        out.push(format!("st.reset {mode}"));
+        // well-formed plan: per user a set of epochs, version = rank of the epoch
+        let users = 3u64;
+        let mut plan: Vec<Vec<u64>> = vec![];
+        for _ in 0..users {
+            let mut eps: Vec<u64> = (1..=6).filter(|_| rng.chance(3, 5)).collect();
+            if eps.is_empty() {
+                eps.push(rng.range(1, 6));
+            }
+            plan.push(eps);
+        }
+        let vs_rec = |rng: &mut Rng, plan: &Vec<Vec<u64>>| -> String {
+            let u = rng.below(users) as usize;
+            let i = rng.below(plan[u].len() as u64) as usize;
+            let pay = if rng.chance(1, 8) { 0 } else { rng.range(1, 9) };
+            format!("vs:{}:{}:{}:{}", u, plan[u][i], i + 1, pay)
+        };
+        let any_rec = |rng: &mut Rng, plan: &Vec<Vec<u64>>| -> String {
+            match rng.below(6) {
+                0 => format!("azks:{}:{}", rng.range(1, 5), rng.range(0, 6)),
+                1 | 2 => format!("node:{}:{}:{}", rng.range(0, 3), rng.range(0, 6), rng.range(1, 9)),
+                _ => vs_rec(rng, plan),
+            }
+        };
+        let any_key = |rng: &mut Rng| -> String {
+            match rng.below(5) {
+                0 => "azks".into(),
+                1 | 2 => format!("node:{}", rng.range(0, 3)),
+                _ => format!("vs:{}:{}", rng.below(users), rng.range(1, 6)),
+            }
+        };
+        let flag = |rng: &mut Rng| -> String {
+            match rng.below(5) {
+                0 => "max".into(),
+                1 => "min".into(),
+                2 => format!("ver:{}", rng.range(1, 5)),
+                3 => format!("ep:{}", rng.range(1, 6)),
+                _ => format!("leq:{}", rng.range(0, 7)),
+            }
+        };
+        let n = rng.range(5, 60);
+        let mut in_txn = false;
+        for _ in 0..n {
+            let fail = if rng.chance(15, 100) { 1 } else { 0 };
+            match rng.below(20) {
+                0 | 1 | 2 => out.push(format!("st.set {} {fail}", any_rec(rng, &plan))),
+                3 | 4 => {
+                    let k = rng.range(0, 4);
+                    let rs: Vec<String> = (0..k).map(|_| any_rec(rng, &plan)).collect();
+                    out.push(format!("st.batchset {fail} {}", rs.join(" ")).trim_end().to_string());
+                }
+                5 | 6 | 7 => out.push(format!("st.get {} {fail}", any_key(rng))),
+                8 => {
+                    let k = rng.range(0, 5);
+                    let ks: Vec<String> = (0..k).map(|_| any_key(rng)).filter(|k| k != "azks").collect();
+                    out.push(format!("st.batchget {fail} {}", ks.join(" ")).trim_end().to_string());
+                }
+                9 => {
+                    out.push("st.begin".into());
+                    in_txn = true;
+                }
+                10 => {
+                    if in_txn && rng.chance(4, 5) {
+                        out.push(format!("st.set azks:{}:{} 0", rng.range(1, 5), rng.range(1, 7)));
+                    }
+                    out.push(format!("st.commit {fail}"));
+                    in_txn = false;
+                }
+                11 => {
+                    if rng.chance(1, 2) {
+                        out.push("st.rollback".into());
+                        in_txn = false;
+                    } else {
+                        out.push("st.flush".into());
+                        out.push("st.get azks 0".into());
+                    }
+                }
+                12 => out.push("st.sleep".into()),
+                13 | 14 => out.push(format!("st.userstate {} {} {fail}", rng.below(users + 1), flag(rng))),
+                15 | 16 => out.push(format!("st.userdata {} {fail}", rng.below(users + 1))),
+                17 | 18 => {
+                    let k = rng.range(1, 4);
+                    let us: Vec<String> = (0..k).map(|_| rng.below(users + 1).to_string()).collect();
+                    out.push(format!("st.userversions {} {fail} {}", flag(rng), us.join(" ")));
+                }
+                _ => {
+                    if !in_txn {
+                        out.push(format!("st.tombstone {} {} {fail}", rng.below(users), rng.range(0, 6)));
+                    } else {
+                        out.push("st.active".into());
+                    }
+                }
+            }
+        }
+        out.push("st.active".into());
+        out.push("st.dbdump".into());
+    }
+}
+
+
+/// `l1.fault`: fault enumeration over publishes of every shape (C10).
+pub fn gen_fault(rng: &mut Rng, thorough: bool, out: &mut Vec<String>) {
+    let rt = rt();
+    let caches: &[&str] = if thorough { &["none", "default", "1ms", "tiny"] } else { &["none", "default"] };
+    let pars: &[&str] = if thorough { &["off", "static4", "static2", "avail32"] } else { &["off", "static4"] };
+    for cfg in ["wv1", "exp"] {
+        for cache in caches {
+            for par in pars {
+                if !thorough && cfg == "exp" && *cache == "none" && *par == "static4" {
+                    continue;
+                }
+                out.push(format!("fx.reset {cfg} {cache} {par}"));
+                out.push(format!("ck {}", key_hex(&rt)));
+                let pool = user_pool(rng, 5);
+                for u in &pool {
+                    for v in 1..=5u64 {
+                        for fresh in [true, false] {
+                            out.push(format!("vrf {} {} {} {}", hex_or_dash(u), if fresh { "F" } else { "S" }, v, show_label(&vrf_label(&rt, cfg, u, fresh, v))));
+                        }
+                    }
+                }
+                let pair = |rng: &mut Rng, i: usize| format!("{} {}", hex_or_dash(&pool[i]), hex_or_dash(&rng.bytes(3)));
+                // the very first publish (empty tree), enumerated
+                out.push(format!("fx.enum {} {}", pair(rng, 0), pair(rng, 1)));
+                out.push(format!("fx.publish {} {}", pair(rng, 0), pair(rng, 1)));
+                // inserts only
+                out.push(format!("fx.enum {} {}", pair(rng, 2), pair(rng, 3)));
+                out.push(format!("fx.publish {} {}", pair(rng, 2), pair(rng, 3)));
+                // updates only
+                out.push(format!("fx.enum {} {}", pair(rng, 0), pair(rng, 2)));
+                // mixed insert + update
+                out.push(format!("fx.enum {} {} {}", pair(rng, 1), pair(rng, 4), pair(rng, 3)));
+                out.push(format!("fx.publish {} {}", pair(rng, 1), pair(rng, 4)));
+                // single update on a deeper tree
+                out.push(format!("fx.enum {}", pair(rng, 4)));
+            }
+        }
+    }
 }
